@@ -216,6 +216,9 @@ func (p c13) Gen(r *simhook.Rand, tier string, idx int) harness.Scenario {
 				a = world.Bins("HMGET", hkey, "f0", "f1", "f2", "f3")
 			case x < 88:
 				a = world.Bins([]string{"HGETALL", "HVALS"}[r.Intn(2)], hkey)
+				if r.Chance(1, 3) {
+					a = world.Bins("HSCAN", hkey, "0") // the one read whose reply nests the values one level deeper
+				}
 			case x < 91:
 				a = world.Bins("STRLEN", key+":n")
 			case x < 94:
